@@ -18,7 +18,7 @@ extern "C" {
 
 namespace {
 
-enum { OP_SPEC = 1, OP_LAUNCH, OP_JOIN, OP_JOIN_ALL, OP_SET_TIMEOUT, OP_SLEEP, OP_YIELD, OP_ATEXIT, OP_ATEXIT_MAIN, OP_COUNT_QUERY };
+enum { OP_SPEC = 1, OP_LAUNCH, OP_JOIN, OP_JOIN_ALL, OP_SET_TIMEOUT, OP_SLEEP, OP_YIELD, OP_ATEXIT, OP_ATEXIT_MAIN, OP_COUNT_QUERY, OP_DETACH };
 static const int MAXT = 12;
 
 struct TRec {
@@ -39,6 +39,7 @@ struct TRec {
     int atexit_ran = 0;
     int os_joins = 0;
     bool joined_by_api = false;
+    bool detached = false; // aws_thread_clean_up without a join: the thread runs on its own
 };
 
 struct Ctx {
@@ -169,6 +170,17 @@ void do_join(Ctx &c, int id) {
     aws_thread_clean_up(&r.thread);
 }
 
+void do_detach(Ctx &c, int id) {
+    TRec &r = c.t[id];
+    if (!r.launched_ok || r.managed || r.joined_by_api) return;
+    r.joined_by_api = true;
+    r.detached = true;
+    sim::note(sim::PK_HARNESS, nullptr, 1150 + id);
+    sim::probe("joinable_thread_detached_by_clean_up");
+    aws_thread_clean_up(&r.thread); // "If you do not join before calling clean_up, the thread will become detached"
+    c.ops_done++;
+}
+
 bool launcher_chain_managed_or_done(Ctx &c, int id, std::vector<char> &in_s) {
     (void)c; (void)id; (void)in_s;
     return true;
@@ -235,6 +247,7 @@ void body(Ctx &c, int id) {
             case OP_SLEEP: sim::sleep_ns((uint64_t)op.a); break;
             case OP_LAUNCH: do_launch(c, id, (int)(op.a % MAXT) + 1); break;
             case OP_JOIN: do_join(c, (int)(op.a % MAXT) + 1); break;
+            case OP_DETACH: if (id == 0) do_detach(c, (int)(op.a % MAXT) + 1); break;
             case OP_ATEXIT:
                 if (id > 0) {
                     TRec &r = c.t[id];
@@ -311,6 +324,10 @@ RunInfo run(const sim::Plan &plan) {
     // end of run: join what is joinable, then wait for all managed threads without a timeout
     for (int i = 1; i <= MAXT; i++)
         if (c.t[i].launcher == 0 && !c.t[i].managed) do_join(c, i);
+    // detached threads finish on their own (and may still launch managed threads): wait for them before the final join-all (bounded by the run's step budget)
+    for (int i = 1; i <= MAXT; i++)
+        if (c.t[i].detached)
+            while (c.t[i].sim_tid < 0 || !sim::thread_done(c.t[i].sim_tid)) sim::sleep_ns(1000000);
     c.timeout_ns = 0;
     aws_thread_set_managed_join_timeout_ns(0);
     do_join_all(c, true);
@@ -320,7 +337,7 @@ RunInfo run(const sim::Plan &plan) {
         if (r.launched_ok) {
             if (r.fn_runs != 1) sim::violation("c20:not-run", "thread %d was launched successfully but its function ran %d times", i, r.fn_runs);
             if ((size_t)r.atexit_ran != r.atexit_registered.size()) sim::violation("c20:atexit-lost", "thread %d: %zu at-exit callbacks registered, %d ran", i, r.atexit_registered.size(), r.atexit_ran);
-            if (r.os_joins != 1) sim::violation("c20:not-joined", "thread %d has been joined %d times at OS level by the end of the run", i, r.os_joins);
+            if (r.os_joins != (r.detached ? 0 : 1)) sim::violation("c20:not-joined", "thread %d has been joined %d times at OS level by the end of the run", i, r.os_joins);
         } else if (r.fn_runs) sim::violation("c20:ran-after-failed-launch", "thread %d ran although its launch failed", i);
     }
     if (sim::unjoined_threads()) sim::violation("c20:not-joined", "%d simulated thread(s) were never joined or detached", sim::unjoined_threads());
@@ -407,7 +424,7 @@ void gen(uint64_t seed, int tier, sim::Plan &p) {
             sim::Op j; j.thr = 0; j.kind = OP_JOIN_ALL; p.ops.push_back(j);
             join_all_placed = true;
         }
-        sim::Op o; o.thr = 0; o.kind = OP_JOIN; o.a = i - 1; p.ops.push_back(o);
+        sim::Op o; o.thr = 0; o.kind = r.chance(0.15) ? OP_DETACH : OP_JOIN; o.a = i - 1; p.ops.push_back(o);
     }
     (void)join_all_placed;
     // join_all_managed polls while one managed thread is left (documented): make a step cost enough virtual time
@@ -427,6 +444,7 @@ std::string op_text(const sim::Op &op) {
             break;
         case OP_LAUNCH: snprintf(b, sizeof b, "thread %d: launch(thread %lld)", op.thr, (long long)(op.a % MAXT) + 1); break;
         case OP_JOIN: snprintf(b, sizeof b, "thread %d: aws_thread_join(thread %lld)", op.thr, (long long)(op.a % MAXT) + 1); break;
+        case OP_DETACH: snprintf(b, sizeof b, "main: aws_thread_clean_up(thread %lld) without joining it (detach)", (long long)(op.a % MAXT) + 1); break;
         case OP_JOIN_ALL: snprintf(b, sizeof b, "main: aws_thread_join_all_managed()"); break;
         case OP_SET_TIMEOUT: snprintf(b, sizeof b, "main: set managed join timeout %lld ns", (long long)op.a); break;
         case OP_SLEEP: snprintf(b, sizeof b, "thread %d: sleep(%lld ns virtual)", op.thr, (long long)op.a); break;
